@@ -46,6 +46,11 @@ structure Orders where
   chDiffDifference : List Call
   chDiffEmpty : List Call
   chDiffTooLong : List Call
+  /-- guards of the dispatch calls in the difference branches: codes of the lists whose
+  non-emptiness enables the call (0 new_messages, 1 new_encrypted_messages, 2 own; 100 = always) -/
+  diffGuard : List Nat
+  sliceGuard : List Nat
+  chDiffGuard : List Nat
   /-- the marker skip in `internalState.applyPts` / `channelState.applyPts` is `break`, not `continue` -/
   applyPtsBreak : Bool
   chApplyPtsBreak : Bool
@@ -85,6 +90,7 @@ inductive Event where
   | apiChDiff (c : Nat) (p : Int)
   | tooLong
   | chTooLong (c : Nat)
+  | apiRestore (p q : Int)   -- `restoreAccessHash`: a getDifference only to learn a channel's access hash
   deriving DecidableEq, Repr
 
 /-! ### The fake server (harness/c02/mgr/world.go) -/
@@ -99,6 +105,10 @@ structure World where
   chSlice : Nat := 0
   tooLongNext : Bool := false
   chTooLong : List Nat := []
+  /-- extra `other_updates` the next non-too-long difference answer of a sequence will carry
+  (key 0: the common difference, 2 + c: channel c): updates of OTHER sequences, position-less
+  updates, updates of unknown channels — forwarded by the server inside this difference -/
+  extra : List (Nat × List Nat) := []
   deriving Repr
 
 def World.happened (w : World) : List Entry := w.log.take w.emitted
@@ -111,6 +121,15 @@ def World.serverQts (w : World) : Int := lastPos w.q0 (fun e => e.seqKey == some
 def World.chanInit (w : World) (c : Nat) : Int := ((w.c0.find? (·.1 == c)).map (·.2)).getD 0
 def World.serverChan (w : World) (c : Nat) : Int :=
   lastPos (w.chanInit c) (fun e => e.seqKey == some (2 + c)) w.happened
+
+/-- Channels whose access hash nobody knows (harness/c02/mgr `hasher`). -/
+def unknownChan (c : Nat) : Bool := decide (9000 ≤ c)
+
+/-- The extra entries waiting for the next answer of key `k`. -/
+def World.extrasOf (w : World) (k : Nat) : List Entry :=
+  (((w.extra.find? (·.1 == k)).map (·.2)).getD []).filterMap fun i => w.log.find? (·.id == i)
+
+def World.dropExtras (w : World) (k : Nat) : World := { w with extra := w.extra.filter (·.1 != k) }
 
 /-- First `n` elements (all if `n = 0`) and whether something was cut off. -/
 def cut (n : Nat) (es : List Entry) : List Entry × Bool :=
@@ -129,14 +148,15 @@ def World.commonDiff (w : World) (pts qts : Int) : World × DiffAns :=
     let cand := w.happened.filter fun e =>
       (e.seqKey == some 0 && decide (e.pos > pts)) || (e.seqKey == some 1 && decide (e.pos > qts))
     let (part, more) := cut w.slice cand
-    if part.isEmpty then (w, .empty)
+    let extras := w.extrasOf 0
+    if part.isEmpty && extras.isEmpty then (w, .empty)
     else
       let p := lastPos pts (fun e => e.seqKey == some 0) part
       let q := lastPos qts (fun e => e.seqKey == some 1) part
       let p := if more then p else max p w.serverPts
       let q := if more then q else max q w.serverQts
-      (w, .diff (part.filter (·.kind == .msg)) (part.filter (·.kind == .qts))
-            (part.filter fun e => e.kind == .other || e.kind == .qother) p q more)
+      (w.dropExtras 0, .diff (part.filter (·.kind == .msg)) (part.filter (·.kind == .qts))
+            ((part.filter fun e => e.kind == .other || e.kind == .qother) ++ extras) p q more)
 
 inductive ChDiffAns where
   | tooLong (p : Int)
@@ -150,9 +170,10 @@ def World.chanDiff (w : World) (c : Nat) (pts : Int) : World × ChDiffAns :=
   else
     let cand := w.happened.filter fun e => e.seqKey == some (2 + c) && decide (e.pos > pts)
     let (part, more) := cut w.chSlice cand
-    if part.isEmpty then (w, .empty (max pts (w.serverChan c)))
-    else (w, .diff (part.filter (·.kind == .chmsg)) (part.filter (·.kind == .chother))
-                (lastPos pts (fun _ => true) part) (!more))
+    let extras := w.extrasOf (2 + c)
+    if part.isEmpty && extras.isEmpty then (w, .empty (max pts (w.serverChan c)))
+    else (w.dropExtras (2 + c), .diff (part.filter (·.kind == .chmsg)) ((part.filter (·.kind == .chother)) ++ extras)
+                (if part.isEmpty then max pts (w.serverChan c) else lastPos pts (fun _ => true) part) (!more))
 
 /-! ### The manager -/
 
@@ -263,7 +284,10 @@ def Mgr.route (O : Orders) (m : Mgr) (e : Entry) : Mgr :=
   match e.kind with
   | .msg | .other => m.seqOp O 0 (.push e)
   | .qts | .qother => m.seqOp O 1 (.push e)
-  | .chmsg | .chother => m.pushChan e.chan (.upd e)
+  | .chmsg | .chother =>
+    -- `handleChannel`: an untracked channel whose access hash is unknown costs one getDifference
+    -- (`restoreAccessHash`) and the update is dropped
+    if unknownChan e.chan then m.emit [.apiRestore m.pts.state m.qts.state] else m.pushChan e.chan (.upd e)
   | .plain | .aff | .chaff => m
 
 /-- `internalState.applyCombined` for a container without seq/date. -/
@@ -294,13 +318,17 @@ def Mgr.diffSetState (O : Orders) (calls : List Call) (p q : Int) (ptsDirect qts
   let m := m.seqOpQuiet O 0 (.seq (seqCalls .storeState .boxSetPts O.diffSetState calls) p ptsDirect)
   m.seqOpQuiet O 1 (.seq (seqCalls .storeState .boxSetQts O.diffSetState calls) q qtsDirect)
 
+/-- `if len(A) > 0 || len(B) > 0 || …`: does the regenerated guard let the dispatch happen? -/
+def guardHolds (guard : List Nat) (msgs enc own : List Entry) : Bool :=
+  guard.any fun c => c == 100 || (c == 0 && !msgs.isEmpty) || (c == 1 && !enc.isEmpty) || (c == 2 && !own.isEmpty)
+
 /-- One call of the `updates.difference` / `updates.differenceSlice` branch. -/
-def Mgr.diffBranchStep (O : Orders) (calls : List Call) (msgs enc own rest : List Entry) (p q : Int)
+def Mgr.diffBranchStep (O : Orders) (calls : List Call) (guard : List Nat) (msgs enc own rest : List Entry) (p q : Int)
     (m : Mgr) (c : Call) : Mgr :=
   match c with
   | .reroute => if rest.isEmpty then m else m.applyCombined O rest
   | .dispatch =>
-    if (msgs ++ enc ++ own).isEmpty then m else m.emit [.dispatch ((msgs ++ enc ++ own).map (·.id))]
+    if guardHolds guard msgs enc own then m.emit [.dispatch ((msgs ++ enc ++ own).map (·.id))] else m
   | .setStateClosure =>
     m.diffSetState O calls p q ((msgs ++ own).filter (·.seqKey == some 0)) ((enc ++ own).filter (·.seqKey == some 1))
   | _ => m
@@ -322,7 +350,7 @@ def Mgr.getDifference (O : Orders) : Nat → Mgr → Mgr
       let own := if O.ownDirect then others.filter ownCommon else []
       let rest := if O.ownDirect then others.filter (fun e => !ownCommon e) else others
       -- interpret the branch: re-route, dispatch, persist+set — in the regenerated order
-      let m := calls.foldl (Mgr.diffBranchStep O calls msgs enc own rest p q) m
+      let m := calls.foldl (Mgr.diffBranchStep O calls (if slice then O.sliceGuard else O.diffGuard) msgs enc own rest p q) m
       if calls.contains .recurse then Mgr.getDifference O fuel m else m
 
 def Mgr.chDiffPreludeStep (O : Orders) (c : Nat) (st : Mgr × Option ChDiffAns) (call : Call) : Mgr × Option ChDiffAns :=
@@ -348,10 +376,12 @@ def Mgr.chGetDifference (O : Orders) (c : Nat) : Nat → Mgr → Mgr
     | some (.empty p) => m.seqOp O (2 + c) (.seq (seqCalls .storeChannelPts .boxSetPts [] O.chDiffEmpty) p [])
     | some (.diff msgs others p final) =>
       let calls := O.chDiffDifference
-      let own := if O.chOwnDirect then others else []
-      let rest := if O.chOwnDirect then [] else others
+      let own := if O.chOwnDirect then others.filter (·.seqKey == some (2 + c)) else []
+      let rest := if O.chOwnDirect then others.filter (fun e => !(e.seqKey == some (2 + c))) else others
       let m := if calls.contains .sendOut ∧ !rest.isEmpty then { m with internal := m.internal ++ [rest] } else m
-      let m := m.seqOp O (2 + c) (.seq (seqCalls .storeChannelPts .boxSetPts [] calls) p (msgs ++ own))
+      -- what the guarded dispatch hands to the handler (nothing if the guard does not hold)
+      let direct := if guardHolds O.chDiffGuard msgs [] own then msgs ++ own else []
+      let m := m.seqOp O (2 + c) (.seq (seqCalls .storeChannelPts .boxSetPts [] calls) p direct)
       if calls.contains .recurse ∧ !final then Mgr.chGetDifference O c fuel m else m
 
 /-- One item of a channel worker's queue (`channelState.handleUpdate` / `handleAffected` /
@@ -401,6 +431,7 @@ inductive Action where
   | chSlice (n : Nat)
   | tlNext
   | chTlNext (c : Nat)
+  | extra (k : Nat) (ids : List Nat)   -- the next answer for key `k` (0 common, 2 + c channel) carries these too
   deriving Repr
 
 def fuel0 : Nat := 64
@@ -443,6 +474,7 @@ def Mgr.act (O : Orders) (m : Mgr) : Action → Mgr
   | .chSlice n => { m with w := { m.w with chSlice := n } }
   | .tlNext => { m with w := { m.w with tooLongNext := true } }
   | .chTlNext c => { m with w := { m.w with chTooLong := c :: m.w.chTooLong } }
+  | .extra k ids => { m with w := { m.w with extra := (k, ids) :: m.w.extra.filter (·.1 != k) } }
 
 /-- `Manager.Run` from a persisted state: startup differences, then the actions, each followed
 by quiescence. -/
